@@ -31,9 +31,9 @@ Headline theorems (proved in the `Lemmas/*Rounding.lean` files of this namespace
   - `logsumexp_error`, `logmeanexp_error`, `shifted_logsumexp_error` (arbitrary shift)
         |ŝ − log Σ exp xᵢ| ≤ (1+u)((1+uf)(u·D + γ^f_1 + γ_n) + uf·log n) + u·|log Σ exp xᵢ|
 * C17 (`Lemmas/LogRounding.lean`)
-  - `softmax_sum_error`   0 < ŷᵢ, |Σ ŷᵢ − 1| ≤ γ_{n+1}   (every `MaxBot` instance; only `exp > 0` used)
+  - `softmax_sum_error_stdmodel`   0 < ŷᵢ, |Σ ŷᵢ − 1| ≤ γ_{n+1}   (every `MaxBot` instance; only `exp > 0` used)
   - `softmax_entry_near`  ŷᵢ ∈ [c·yᵢ, yᵢ/c], c = e^{−2uD}(1−uf)²(1−u)^{n+1}
-  - `logistic_error` (relative, γ₂ + γ^f_1 + γ₂γ^f_1), `logistic_pos`, `logistic_range` ((0,1], monotone
+  - `logistic_error` (relative, γ₂ + γ^f_1 + γ₂γ^f_1), `logistic_pos_stdmodel`, `logistic_range_stdmodel` ((0,1], monotone
     rounding with fl(1) = 1)
 * C13 autocovariance (`Lemmas/AcovfRounding.lean`)
   - `acovf_pert`, `acovf_error_eps`, `acovf_error`, `acovf_zero_error`
@@ -149,7 +149,7 @@ theorem stdmodel_softmax_note (M : FlModel) [ExpLnStd M] [MaxBot (Fl M)] (hu : M
   have hγ : M.γ (x.length + 1) ≤ 1.12e-13 := by
     refine le_trans (M.γ_mono hle h1001) ?_
     unfold FlModel.γ; rw [hu]; norm_num
-  obtain ⟨_, h2, h3⟩ := softmax_sum_error x hne hlt
+  obtain ⟨_, h2, h3⟩ := softmax_sum_error_stdmodel x hne hlt
   exact ⟨h2, le_trans h3 hγ⟩
 
 /-- **`logistic` in a standard model with `u = 2⁻⁵³`, `uf = 2⁻⁵²`**: relative error at most `4.5·10⁻¹⁶` for every
@@ -411,9 +411,9 @@ noncomputable local instance : MaxBot (Fl Minf) :=
 
 noncomputable abbrev x00 : List (Fl Minf) := [⟨0⟩, ⟨0⟩]
 
-/-- `softmax_sum_error` on `[0, 0]`: `(n+1)·u = 0.03 < 1` -/
+/-- `softmax_sum_error_stdmodel` on `[0, 0]`: `(n+1)·u = 0.03 < 1` -/
 example : (∀ y ∈ softmax x00, 0 < y.val) ∧ |(vals (softmax x00)).sum - 1| ≤ Minf.γ 3 := by
-  obtain ⟨_, h2, h3⟩ := softmax_sum_error x00 (by simp) (by rw [Minf_u]; norm_num)
+  obtain ⟨_, h2, h3⟩ := softmax_sum_error_stdmodel x00 (by simp) (by rw [Minf_u]; norm_num)
   exact ⟨h2, h3⟩
 
 theorem softmaxMax_x00 : softmaxMax x00 = ⟨0⟩ := by
@@ -478,10 +478,10 @@ theorem Mstep_one : Mstep.rnd 1 = 1 := by
 
 noncomputable local instance : ExpLnStd Mstep := ExpLnStd.ofRnd Mstep
 
-/-- `logistic_range` in the monotone model: hypotheses hold, and the value at `0` is `1/2.02 ≠ 1/2` -/
+/-- `logistic_range_stdmodel` in the monotone model: hypotheses hold, and the value at `0` is `1/2.02 ≠ 1/2` -/
 example : (0 < (logistic (⟨0⟩ : Fl Mstep)).val ∧ (logistic (⟨0⟩ : Fl Mstep)).val ≤ 1) ∧
     (logistic (⟨0⟩ : Fl Mstep)).val = 1 / 2.02 := by
-  refine ⟨logistic_range Mstep_mono Mstep_one _, ?_⟩
+  refine ⟨logistic_range_stdmodel Mstep_mono Mstep_one _, ?_⟩
   have r1 : Mstep.rnd 1 = 1 := Mstep_one
   have r2 : Mstep.rnd 2 = 2 * (1 + 1 / 100) := by
     show (if (2 : ℝ) ≤ 1 then (2 : ℝ) else 2 * (1 + 1 / 100)) = _
